@@ -32,6 +32,29 @@ theorem adopt_total (s : St) (p : Nat) (f : Flav) (h : s.pay p = .absent) :
   simp only [step, h, if_true]
   cases hp : s.phase <;> simp [upd]
 
+/-- **none is lost**: while the runtime is up, a payload that has been handed to its runner can
+start (on the one thread of its flavour, or on a fresh thread for a thread payload), the start-up
+queue can be flushed as long as it has not been, and a service that has not been adopted yet can be
+swept as long as no shutdown was requested and trio is alive -/
+theorem start_enabled (s : St) (p : Nat) (hup : s.phase = .up) (hp : s.pay p = .submitted) (t : Nat)
+    (ht : s.tidOK (s.fl p) t = true) :
+    ∃ s', step s (.start p t) = some s' ∧ s'.pay p = .running ∧ s'.starts p = s.starts p + 1 := by
+  have h : step s (.start p t) = some { (s.setFlavTid (s.fl p) t) with pay := upd s.pay p .running, starts := upd s.starts p (s.starts p + 1), tid := upd s.tid p (some t) } := by
+    simp only [step, hp, hup, ht, true_or, and_self, if_true]
+  exact ⟨_, h, by simp [upd], by simp [upd]⟩
+
+theorem flush_enabled (s : St) (hup : s.phase = .up) (hf : s.flushed = false) :
+    ∃ s', step s .flush = some s' ∧ ∀ p, s.pay p = .queued → s'.pay p = .submitted := by
+  have h : step s .flush = some { s with flushed := true, pay := fun q => if s.pay q = .queued then .submitted else s.pay q } := by
+    simp only [step, hup, hf, and_self, if_true]
+  exact ⟨_, h, fun p hp => by simp [hp]⟩
+
+theorem sweep_enabled (s : St) (p : Nat) (hup : s.phase = .up) (hu : s.pay p = .unit) (hs : s.stopReq = false)
+    (ht : s.latch .trio = .opened) : ∃ s', step s (.sweep p) = some s' ∧ s'.pay p = .submitted := by
+  have h : step s (.sweep p) = some { s with pay := upd s.pay p .submitted } := by
+    simp only [step, hup, hu, hs, ht, and_self, if_true]
+  exact ⟨_, h, by simp [upd]⟩
+
 /-- the start-up queue is flushed exactly once, and flushing turns every queued payload into a
 submitted one (none is lost) -/
 theorem flush_all (s s' : St) (h : step s .flush = some s') :
